@@ -61,6 +61,7 @@ def check(ctx):
     _power_method(rep, model)
     _pdhg_steps(rep, model)
     _fixed_points(rep, model)
+    _kaczmarz_random(rep, model)
     return rep
 
 
@@ -855,7 +856,7 @@ def _fixed_points(rep, model):
                      [Rat.var('ss0'), Rat.var('ss1')], niter], {})
         return [('x', vs.add(x.val, xs, -1))]
 
-    def pgrad(fname):
+    def pgrad(fname, extra=None):
         def run(assume, niter):
             H, I, e = setup(assume)
             xs = vs.sym('xs')
@@ -865,7 +866,8 @@ def _fixed_points(rep, model):
             x = Vec(dict(xs), e.X)
             fn = model.ctx.func(c11.PGRAD, fname)
             I.call_func(Func(fn, I.env_of(c11.PGRAD), None),
-                        [x, e.fun('f', e.X), g, Rat.var('gamma'), niter], {})
+                        [x, e.fun('f', e.X), g, Rat.var('gamma'), niter],
+                        dict(extra or {}))
             return [('x', vs.add(x.val, xs, -1))]
         return run
 
@@ -883,6 +885,8 @@ def _fixed_points(rep, model):
              fbpd),
             ('proximal_gradient', c11.PGRAD, 'proximal_gradient',
              pgrad('proximal_gradient')),
+            ('proximal_gradient[lam]', c11.PGRAD, 'proximal_gradient',
+             pgrad('proximal_gradient', {'lam': Rat.var('lam')})),
             ('accelerated_proximal_gradient', c11.PGRAD,
              'accelerated_proximal_gradient',
              pgrad('accelerated_proximal_gradient'))]
@@ -913,4 +917,82 @@ def _fixed_points(rep, model):
             except PyRaise as e:
                 rep.violation('R6', cons, 'raises %s' % e.name, rel,
                               fn.lineno)
-    rep.floor('R6', 'fixed-point runs', n, 27)
+    rep.floor('R6', 'fixed-point runs', n, 30)
+
+
+# --------------------------------------------------------------------------
+# R7: in random order the per-operator data (right-hand side, relaxation
+# parameter) follow the operator: a sweep in the order given by the
+# permutation equals a fixed-order sweep over the permuted problem.
+def _kaczmarz_random(rep, model):
+    from . import c11
+    from .. import vs
+    from ..ratfun import Rat
+    from ..symex import Interp, Func, Vec, Builtin, Rec, NPV, PyRaise
+    from ..forks import explore
+    fn = model.ctx.func(c11.ITER, 'kaczmarz')
+    if fn is None:
+        raise AnalysisError('anchor vanished: kaczmarz')
+
+    class PH(c11.SolverHooks):
+        def __init__(self, perm):
+            c11.SolverHooks.__init__(self)
+            self.perm = perm
+
+        def on_getattr(self, interp, obj, name):
+            if obj is NPV and name == 'random':
+                return Rec('np.random', permutation=Builtin(
+                    'permutation', lambda seq: [list(seq)[k]
+                                                for k in self.perm]))
+            if isinstance(obj, Rec) and name in obj.attrs:
+                return obj.attrs[name]
+            return c11.SolverHooks.on_getattr(self, interp, obj, name)
+
+    def run(perm, random, order, niter, scalar_omega):
+        def once(assume):
+            H = PH(perm)
+            I = Interp(model, assume, H)
+            e = c11.Env(I, H)
+            sp = [e.Y, e.Y2, e.Y]
+            ops = [I.opsym('A%d' % k, e.X, sp[k], False) for k in range(3)]
+            rhs = [e.vec('r%d' % k, sp[k]) for k in range(3)]
+            om = [Rat.var('om%d' % k) for k in range(3)]
+            I.real_scalars.update({'om0', 'om1', 'om2', 'om'})
+            x = e.vec('x', e.X)
+            I.call_func(Func(fn, I.env_of(c11.ITER), None), [
+                [ops[k] for k in order], x, [rhs[k] for k in order], niter],
+                {'omega': Rat.var('om') if scalar_omega
+                 else [om[k] for k in order], 'random': random})
+            return vs.freeze(x.val)
+        leaves = explore(once, limit=20)
+        if len(leaves) != 1:
+            raise Undecided('%d execution paths' % len(leaves))
+        return leaves[0][1]
+    n = 0
+    for perm in ((2, 0, 1), (1, 0, 2), (2, 1, 0)):
+        for niter in (1, 2):
+            for scalar_omega in (False, True):
+                n += 1
+                cons = 'kaczmarz[random order %s, niter=%d, %s omega]' % (
+                    list(perm), niter, 'scalar' if scalar_omega
+                    else 'per-operator')
+                try:
+                    a = run(perm, True, (0, 1, 2), niter, scalar_omega)
+                    b = run(perm, False, perm, niter, scalar_omega)
+                    if a != b:
+                        rep.violation(
+                            'R7', cons, 'the sweep in the drawn order '
+                            'differs from the fixed-order sweep over the '
+                            'permuted operators / right-hand sides / '
+                            'relaxation parameters: per-operator data do '
+                            'not follow their operator', c11.ITER,
+                            fn.lineno)
+                    else:
+                        rep.holds('R7', cons, 'equals the fixed-order sweep '
+                                  'over the permuted problem')
+                except Undecided as e:
+                    rep.undecided('R7', cons, str(e), c11.ITER, fn.lineno)
+                except PyRaise as e:
+                    rep.violation('R7', cons, 'raises %s' % e.name,
+                                  c11.ITER, fn.lineno)
+    rep.floor('R7', 'random-order sweeps', n, 12)
